@@ -1,6 +1,7 @@
 package props
 
 import (
+	"bytes"
 	"context"
 	"fmt"
 	"sort"
@@ -94,7 +95,12 @@ func c03Run(c *fw.Case, env *fw.Env) *fw.Obs {
 				}
 			}
 		} else {
+			// a wrong row count that keeps the number of blocks (otherwise the table cannot even be decoded
+			// and doctor removes the commit instead of re-ingesting: no table is produced)
 			rowsCount = len(sorted) + 1
+			if len(sorted)%255 == 0 {
+				rowsCount = len(sorted) - 1
+			}
 		}
 		if len(sorted) == 0 {
 			return o
@@ -181,6 +187,11 @@ func c03Run(c *fw.Case, env *fw.Env) *fw.Obs {
 		ncom, err := objects.GetCommit(db, head)
 		if err != nil {
 			o.Violate("resolve-bad-commit/doctor/"+class, "%v", err)
+			return o
+		}
+		if bytes.Equal(ncom.Table, sum) {
+			// doctor did not re-ingest (it removed or kept the commit): no table was produced by it
+			o.Ev("doctor_did_not_reingest", 1)
 			return o
 		}
 		report("doctor-resolve", db, ncom.Table, true)
